@@ -2,28 +2,43 @@
 import contextlib
 import io
 import math
+import sys
+import traceback
+import types
+from fractions import Fraction as F
 
 import numpy as np
 
-from ..common import seed_rng
+from ..common import q2s, run_driver, seed_rng
+from ..exact import NEWTON_COTES, enc_rule1, rand_rule
+from ..qnum import Q
 from ..slchecks import make_curve
 from .. import numref
 from .C04 import translate_formulas as translate  # noqa: F401  (ip_tik is one of the generated formulas)
 
 PROP_MODS = ['Stbem.Props.C08']
-RULE = ('tie: the REAL InitialOperator.linform (boundary-targeted domain mesh, the three cell classes, their '
-        'parametrisations and Jacobians, both branches of the time-integrated kernel) with the special function exp1 '
-        'replaced in the harness by polynomials, for which the 3-D Duffy rules are exact: the load must equal the '
-        'closed-form polynomial integral over domain x segment to rounding, for every dyadic boundary segment up to the '
-        'level bound on unit square, pi square and L-shape, both time branches, polynomial u0; the generated kernel '
-        'ip_tik is validated against the Python function exactly. search: u0 = 1 and the sine product against the '
+RULE = ('tie (exact): the REAL InitialOperator (real constructor, real <domain>BoundaryRefined factories of src/initial_mesh.py) runs '
+        'linform on Q numbers - rule constructor log_quadrature_scheme replaced by small random rational rules, exp1 / FPI_INV / np.pi '
+        'by rational or polynomial stand-ins, math.fsum by an exact sum (harness process only) - and the load AND the per-cell '
+        'contributions (element index, class identical / touching at gamma(c) / touching at gamma(d) / far, value) must be textually '
+        'equal to the Lean model Stbem.Model.InitialPotential (`ip lin`); every side of UnitSquare, LShape and of PiSquare with the '
+        'dyadic stand-in 25/8 for pi, segment levels 0..3 / 0..4, both orientations, both time branches (a == 0 / a != 0), '
+        'polynomial and rational u0, assertion cases (non-dyadic piece, diagonal, edge shared by two root cells); linform_vector = map; '
+        'instance of the Lean theorem linform_eq_integral_poly on the real code: exact Newton-Cotes rule + polynomial kernel => '
+        'load = exact integral (Fractions). Kept from before: polynomial stand-in for exp1 in floats vs closed-form integral (1e-10), '
+        'generated ip_tik validated against the Python function. search: u0 = 1 and the sine product against the '
         'closed-form potentials of problems.py integrated over the element (1e-5), linearity in u0, additivity under '
-        'splitting, pointwise evaluate() for t >= 0.05 side^2 (1e-5). non-trivial = every case; distinct = (domain, '
-        'segment, time interval, u0, kernel).')
+        'splitting, pointwise evaluate() for t >= 0.05 side^2 (1e-5). non-trivial = a call with >= 2 cell classes / every float case; '
+        'distinct = (domain, segment, time interval, u0, kernel, rule).')
 TRUSTED = [
     'Lean 4.33 kernel; axioms propext, Classical.choice, Quot.sound only',
-    'quadtree model (C16) and quadrature theorems (C15) for the exactness on polynomial kernels',
-    'the 1e-5 accuracy for the true kernel E1 is a claim about fixed rules on a non-polynomial integrand: search only (partial)',
+    'hand-written model lean/Stbem/Model/InitialPotential.lean (on top of the quadtree model of C16 and the rule model of C15), tied '
+    'to src/initial_potential.py by the exact correspondence (harness/checks/C08.py, Driver/InitPotCmd.lean); modelled rather than '
+    'verified: Vertex identity = coordinates, set iteration order of leaf_elements (contributions are compared sorted by element '
+    'index), math.isclose = equality; binary64 rounding is outside the model; the float pi-square (rounded midpoints) is covered '
+    'by the float runs only',
+    'the special function E1 is a parameter of model and theorems; the 1e-5 accuracy for the true kernel E1 is a claim about fixed '
+    'rules on a non-polynomial integrand: search only (partial)',
 ]
 ASSUMPTIONS = ['boundary elements are dyadic sub-intervals of unit-length pieces of a side (precondition of the domain-mesh matching)']
 
@@ -97,6 +112,397 @@ def poly_reference(domain, seg, u0c, kernel_pow, a, b):
     return tot / (4 * np.pi)
 
 
+# ------------------------------------------------------------------------------------------------
+# exact correspondence: the REAL InitialOperator.linform on Q numbers vs the Lean model (`ip ...`)
+PI_STANDIN = F(25, 8)   # dyadic stand-in for np.pi in src.initial_mesh.PiSquare (see XDOMAINS)
+
+UNIT_PIECES = [((0, 0), (1, 0)), ((1, 0), (1, 1)), ((1, 1), (0, 1)), ((0, 1), (0, 0))]
+LSHAPE_PIECES = [((0, 0), (0, -1)), ((0, -1), (1, -1)), ((1, -1), (1, 0)), ((1, 0), (1, 1)), ((1, 1), (0, 1)),
+                 ((0, 1), (-1, 1)), ((-1, 1), (-1, 0)), ((-1, 0), (0, 0))]
+# domain -> (factory name in src.initial_mesh, driver domain, unit pieces of the boundary in the order and direction
+# the shipped curve runs, side length, root squares (x0, y0, side))
+XDOMAINS = {
+    'unit': dict(init='UnitSquareBoundaryRefined', dom='unit', pieces=UNIT_PIECES, side=F(1), roots=[(F(0), F(0), F(1))]),
+    'lshape': dict(init='LShapeBoundaryRefined', dom='lshape', pieces=LSHAPE_PIECES, side=F(1),
+                   roots=[(F(0), F(-1), F(1)), (F(0), F(0), F(1)), (F(-1), F(0), F(1))]),
+    # PiSquare: in binary64 the midpoints of the real pi-square are rounded (3*pi/4 needs 54 bits), so its coordinates
+    # are not rational multiples of pi and the float pi-square is outside an exact tie (it is covered by the float
+    # searches below).  Here `np.pi` of src.initial_mesh is replaced (harness only) by the dyadic 25/8: the REAL
+    # PiSquareBoundaryRefined then builds the square [0, 25/8]^2 exactly, which exercises cell sizes != 2^-l.
+    'pi': dict(init='PiSquareBoundaryRefined', dom='sq:' + q2s(PI_STANDIN),
+               pieces=[((a[0] * PI_STANDIN, a[1] * PI_STANDIN), (b[0] * PI_STANDIN, b[1] * PI_STANDIN)) for a, b in UNIT_PIECES],
+               side=PI_STANDIN, roots=[(F(0), F(0), PI_STANDIN)]),
+}
+
+IP_ASSERT_TAGS = [('id_bdr == 1', 'assert:id_bdr'), ('len(tmp) == 1', 'assert:tmp'), ('v0 is not None', 'assert:vertex-none'),
+                  ('assert parent', 'assert:parent'), ('axis is not None', 'assert:axis'), ('result is None', 'assert:vertex-twice'),
+                  ('vertex in self.vertices', 'assert:connected-member'), ('len(result) == 2', 'assert:connected-two'),
+                  ('gamma_Q(0, 0)', 'assert:touch-origin'), ('element.level - 1', 'assert:level'),
+                  ('__bisect_edge', 'assert:bisected')]
+
+
+def ip_assert_tag(exc):
+    tb = traceback.extract_tb(exc.__traceback__)
+    line = (tb[-1].line or '') if tb else ''
+    for pat, tag in IP_ASSERT_TAGS:
+        if pat in line:
+            return tag
+    return 'assert:?(%s)' % line.strip()[:60]
+
+
+class _Proxy:
+    """module object with some attributes replaced (harness process only)"""
+    def __init__(self, real, **over):
+        self._real = real
+        self.__dict__.update(over)
+
+    def __getattr__(self, name):
+        return getattr(self._real, name)
+
+
+def _fsum_exact(xs):
+    acc = Q(0)
+    for x in xs:
+        acc = acc + x
+    return acc
+
+
+def _elementwise(fn):
+    def g(x):
+        if isinstance(x, np.ndarray):
+            out = np.empty(x.shape, dtype=object)
+            for idx in np.ndindex(x.shape):
+                out[idx] = fn(x[idx])
+            return out
+        return fn(x)
+    return g
+
+
+class Kernel:
+    """stand-in for scipy.special.exp1: ('q', p0, p1, p2, q0) = (p0 + p1 u + p2 u^2)/(q0 + u^2) or ('p', c0, c1, ...)"""
+    def __init__(self, kind, coeffs):
+        self.kind, self.c = kind, [F(c) for c in coeffs]
+
+    def __call__(self, u):
+        u = F(u.v if isinstance(u, Q) else u)
+        if self.kind == 'q':
+            p0, p1, p2, q0 = self.c
+            return Q((p0 + p1 * u + p2 * u * u) / (q0 + u * u))
+        return Q(sum(c * u**k for k, c in enumerate(self.c)))
+
+    def encode(self):
+        return self.kind + ':' + ','.join(q2s(c) for c in self.c)
+
+
+class U0:
+    """initial datum: polynomial sum c x^i y^j, optionally divided by a second (positive) polynomial"""
+    def __init__(self, num, den=None):
+        self.num, self.den = num, den
+
+    @staticmethod
+    def _ev(ts, xy):
+        acc = 0
+        for (c, i, j) in ts:
+            acc = acc + c * xy[0]**i * xy[1]**j
+        return acc
+
+    def __call__(self, xy):
+        v = self._ev(self.num, xy)
+        return v if self.den is None else v / self._ev(self.den, xy)
+
+    def encode(self):
+        enc = lambda ts: ':'.join('%s,%d,%d' % (q2s(c), i, j) for (c, i, j) in ts)
+        return enc(self.num) if self.den is None else enc(self.num) + '|' + enc(self.den)
+
+    def scaled_sum(self, al, other, be):
+        assert self.den is None and other.den is None
+        return U0([(al * c, i, j) for (c, i, j) in self.num] + [(be * c, i, j) for (c, i, j) in other.num])
+
+
+class XSeg:
+    """boundary element stub on a straight unit-speed piece: gamma(t) = P + (t - s0) D, handed out as the binary64
+    array the real curves return (exact: all coordinates are dyadic)"""
+    def __init__(self, a, b, c, d, s0, P, D):
+        self.time_interval = (Q(a), Q(b))
+        self.space_interval = (Q(c), Q(d))
+        self.s0, self.P, self.D = F(s0), (F(P[0]), F(P[1])), (F(D[0]), F(D[1]))
+        self.h_t, self.h_x = Q(b) - Q(a), Q(d) - Q(c)
+
+    def point(self, t):
+        t = F(t.v if isinstance(t, Q) else t)
+        return (self.P[0] + (t - self.s0) * self.D[0], self.P[1] + (t - self.s0) * self.D[1])
+
+    def gamma_space(self, t):
+        x, y = self.point(t)
+        assert F(float(x)) == x and F(float(y)) == y, 'harness: non-dyadic boundary point'
+        return np.array([[float(x)], [float(y)]])
+
+    def encode(self):
+        a, b = self.time_interval
+        c, d = self.space_interval
+        p0, p1 = self.point(c), self.point(d)
+        return ' '.join(q2s(v) for v in (a, b, c, d, p0[0], p0[1], p1[0], p1[1]))
+
+
+class ExactIP:
+    """The REAL InitialOperator (built by its real constructor) with: the rule constructor log_quadrature_scheme
+    replaced by a rational rule of Q numbers, exp1 / FPI_INV / np.pi replaced by rational stand-ins, math.fsum by an exact
+    sum; the REAL <domain>BoundaryRefined factory of src.initial_mesh (wrapped only to see the mesh it created)."""
+    def __init__(self, domain, rule, kernel, pi, fpi_inv, u0):
+        self.domain, self.rule, self.kernel, self.pi, self.fpi, self.u0 = domain, rule, kernel, F(pi), F(fpi_inv), u0
+        self.spec = XDOMAINS[domain]
+        self.last_mesh = None
+
+    def context_line(self):
+        return 'ip ctx %s %s %s %s %s' % (enc_rule1(*self.rule), self.kernel.encode(), q2s(self.pi), q2s(self.fpi), self.u0.encode())
+
+    @contextlib.contextmanager
+    def installed(self):
+        import math as real_math
+        import src.initial_mesh as IM
+        import src.initial_potential as IP
+        from src.quadrature import QuadScheme1D
+        px, wx = self.rule
+        qa = lambda xs: np.array([Q(x) for x in xs] + [None], dtype=object)[:-1]
+        log_rule = QuadScheme1D(qa(px), qa(wx))
+        saved = [(IP, n, getattr(IP, n)) for n in ('exp1', 'FPI_INV', 'np', 'math', 'log_quadrature_scheme')] + [(IM, 'np', IM.np)]
+        IP.exp1 = _elementwise(self.kernel)
+        IP.FPI_INV = Q(self.fpi)
+        IP.np = _Proxy(saved[2][2], pi=Q(self.pi))
+        IP.math = _Proxy(real_math, fsum=_fsum_exact)
+        IP.log_quadrature_scheme = lambda *a, **k: log_rule
+        IM.np = _Proxy(saved[5][2], pi=PI_STANDIN)
+        try:
+            factory = getattr(IM, self.spec['init'])
+
+            def wrapped(v0, v1):
+                self.last_mesh = None
+                mesh = factory(v0, v1)
+                self.last_mesh = mesh
+                return mesh
+            stub = types.SimpleNamespace(gamma_space=types.SimpleNamespace(integrator=lambda q: None), leaf_elements=[])
+            self.M0 = IP.InitialOperator(bdr_mesh=stub, u0=self.u0, initial_mesh=wrapped, problem='verif')
+            yield self
+        finally:
+            for mod, n, v in reversed(saved):
+                setattr(mod, n, v)
+
+    def linform_str(self, seg):
+        """answer of the real code in the syntax of the driver's `ip lin`"""
+        p0, p1 = seg.point(seg.space_interval[0]), seg.point(seg.space_interval[1])
+        try:
+            val, ips = self.M0.linform(seg)
+        except AssertionError as exc:
+            return 'err ' + ip_assert_tag(exc), None
+        mesh = self.last_mesh
+        idx = {id(e): i for i, e in enumerate(mesh.elements)}
+        rows = []
+        for e, v in ips:
+            cs = [(F(w.x), F(w.y)) for w in e.vertices]
+            cls = 'I' if (p0 in cs and p1 in cs) else 'A' if p0 in cs else 'B' if p1 in cs else 'F'
+            rows.append((idx[id(e)], cls, v))
+        rows.sort(key=lambda r: r[0])
+        return 'ok %s|%s' % (q2s(val), ' '.join('%d:%s:%s' % (i, c, q2s(v)) for (i, c, v) in rows)), (val, rows)
+
+
+def segment_of(domain, piece_idx, l, k, a, b, reverse=False):
+    spec = XDOMAINS[domain]
+    (P, E) = spec['pieces'][piece_idx]
+    side = spec['side']
+    D = ((F(E[0]) - F(P[0])) / side, (F(E[1]) - F(P[1])) / side)
+    s0 = piece_idx * side
+    c, d = s0 + side * F(k, 2**l), s0 + side * F(k + 1, 2**l)
+    if reverse:   # the same set of points run through in the opposite direction (a clockwise curve)
+        return XSeg(a, b, c, d, s0, E, (-D[0], -D[1]))
+    return XSeg(a, b, c, d, s0, P, D)
+
+
+def rand_u0(rng, kind):
+    rq = lambda: F(rng.randint(-6, 6), rng.choice([1, 2, 3, 5]))
+    if kind == 'const':
+        return U0([(F(rng.choice([-2, 1, 3]), rng.choice([1, 2])), 0, 0)])
+    if kind == 'bilinear':
+        return U0([(rq(), 0, 0), (rq(), 1, 0), (rq(), 0, 1), (F(rng.choice([-3, -1, 2, 5]), 2), 1, 1)])
+    if kind == 'quadratic':
+        return U0([(rq(), 0, 0), (rq(), 1, 0), (rq(), 0, 1), (rq(), 1, 1), (rq(), 2, 0), (F(rng.choice([-1, 1, 4]), 3), 0, 2)])
+    return U0([(rq(), 0, 0), (rq(), 1, 0), (F(rng.choice([-2, 1, 3])), 0, 1)], [(F(rng.randint(1, 4)), 0, 0), (F(1, rng.randint(1, 3)), 2, 0), (F(1), 0, 2)])
+
+
+def rand_kernel(rng, kind):
+    if kind == 'q':
+        while True:
+            p0, p2 = F(rng.randint(1, 9), rng.randint(1, 5)), F(rng.randint(1, 9), rng.randint(1, 5))
+            p1 = F(rng.randint(-9, 9), rng.randint(1, 5))
+            if p1 * p1 < 4 * p0 * p2:
+                return Kernel('q', [p0, p1, p2, F(rng.randint(1, 9), rng.randint(1, 3))])
+    return Kernel('p', [F(rng.randint(-4, 4), rng.choice([1, 2, 3])) for _ in range(rng.randint(1, 3))] + [F(rng.choice([-2, 1, 3]), rng.choice([1, 2]))])
+
+
+def exact_reference(domain, seg, u0, kernel, a, b, fpi):
+    """int_Omega int_K u0(x) k(|x - y|^2) ds_y dx for a polynomial u0 and a polynomial stand-in exp1, exactly (Fractions):
+    tensor closed Newton-Cotes rule with 7 nodes (exact to degree 7 in each variable) on every root square x segment;
+    k(r2) = fpi * (E(r2/4b) - [a != 0] E(r2/4a))."""
+    xs, ws = NEWTON_COTES[7]
+    c, d = seg.space_interval
+    p0, p1 = seg.point(c), seg.point(d)
+    length = abs(p1[0] - p0[0]) + abs(p1[1] - p0[1])
+    E = lambda u: kernel(u).v
+    tot = F(0)
+    for (x0, y0, s) in XDOMAINS[domain]['roots']:
+        for xi, wi in zip(xs, ws):
+            X = x0 + s * xi
+            for xj, wj in zip(xs, ws):
+                Y = y0 + s * xj
+                u = u0(np.array([X, Y], dtype=object))
+                for tk, wk in zip(xs, ws):
+                    yx, yy = p0[0] + (p1[0] - p0[0]) * tk, p0[1] + (p1[1] - p0[1]) * tk
+                    r2 = (X - yx)**2 + (Y - yy)**2
+                    kv = E(r2 / (4 * b)) - (E(r2 / (4 * a)) if a != 0 else 0)
+                    tot += s * s * length * wi * wj * wk * u * kv
+    return F(fpi) * tot
+
+
+# the last interval starts within 1e-8 of 0 without starting at 0 (exact test `a == 0` vs a tolerance)
+TIME_CASES = [(F(0), F(1, 2)), (F(1, 4), F(1)), (F(0), F(1, 64)), (F(3, 8), F(1, 2)), (F(1, 2**30), F(1, 2**29))]
+
+
+def correspond_exact(res, tier):
+    """A. model = code: load and per-cell contributions, textually, all cell classes / both time branches / every side of
+    the three domains / several levels / several u0, rules, kernels; assertion cases.  B. the instance of the Lean theorem
+    `linform_eq_integral_poly` on the real code: exact rule + polynomial kernel => load = exact integral (Fractions)."""
+    rng = seed_rng(res.seed, 'C08x')
+    thorough = tier != 'quick'
+    lmax = 4 if thorough else 3
+    if hasattr(sys, 'set_int_max_str_digits'):   # sums of values of rational stand-ins have denominators of > 4300 digits
+        sys.set_int_max_str_digits(0)
+    lines, expect, meta = [], [], []
+
+    def add(line, want, m=None):
+        lines.append(line)
+        expect.append(want)
+        meta.append(m)
+
+    n_ctx = 0
+    for domain in ('unit', 'lshape', 'pi'):
+        spec = XDOMAINS[domain]
+        n_pieces = len(spec['pieces'])
+        for rep in range(3 if thorough else 1):
+            for ukind in ('bilinear', 'rational', 'quadratic', 'const'):
+                if not thorough and ukind == 'const' and domain != 'unit':
+                    continue
+                rule = rand_rule(rng, n=rng.choice([1, 2, 2, 3]) if thorough else rng.choice([1, 2]))
+                kernel = rand_kernel(rng, rng.choice(['q', 'q', 'p']))
+                pi, fpi = F(rng.randint(1, 40), rng.randint(1, 40)), F(rng.randint(1, 40), rng.randint(1, 40))
+                xo = ExactIP(domain, rule, kernel, pi, fpi, rand_u0(rng, ukind))
+                n_ctx += 1
+                add(xo.context_line(), 'ok')
+                with xo.installed():
+                    # every side of the domain in every context; levels 0..lmax; first, last and a random piece of a level
+                    cases = []
+                    for pi_ in range(n_pieces):
+                        for l in range(lmax + 1):
+                            ks = sorted(set([0, 2**l - 1, rng.randrange(2**l)]))
+                            if thorough:
+                                cases += [(pi_, l, k) for k in ks]
+                        if not thorough:
+                            l = rng.randint(1, lmax)
+                            cases.append((pi_, l, rng.choice([0, 2**l - 1, rng.randrange(2**l)])))
+                    if not thorough:
+                        cases += [(rng.randrange(n_pieces), 0, 0) for _ in range(2)]
+                        cases += [(rng.randrange(n_pieces), l, rng.randrange(2**l)) for l in (2, lmax)]
+                    for (pi_, l, k) in cases:
+                        a, b = TIME_CASES[(len(lines) + pi_) % len(TIME_CASES)] if rng.random() < 0.7 else rng.choice(TIME_CASES)
+                        rev = rng.random() < 0.15
+                        seg = segment_of(domain, pi_, l, k, a, b, reverse=rev)
+                        res.bump('sides_%s_%d' % (domain, pi_))
+                        want, val = xo.linform_str(seg)
+                        m = dict(domain=domain, piece=pi_, l=l, k=k, time=(a, b), reversed=rev, u0=ukind, kernel=kernel.kind,
+                                 rule_nodes=len(rule[0]), ctx=xo.context_line())
+                        add('ip lin %s %d %s' % (spec['dom'], l + 1, seg.encode()), want, m)
+                    # linform_vector = map of linform (serial branch, no cache directory)
+                    segs = [segment_of(domain, rng.randrange(n_pieces), 1, rng.randrange(2), *rng.choice(TIME_CASES)) for _ in range(2)]
+                    with contextlib.redirect_stdout(io.StringIO()):
+                        vec = xo.M0.linform_vector(elems=segs)
+                    # the real routine stores into np.zeros (binary64): compare the doubles of the exact values
+                    add('ip vec %s 3 %s' % (spec['dom'], ' '.join(s.encode().replace(' ', ',') for s in segs)), None,
+                        dict(vector=[float(v) for v in vec], domain=domain))
+                    # assertion cases: not a dyadic piece ([1/4, 3/4] of a side), not axis-parallel, an edge shared by two root cells (L-shape)
+                    bad = [XSeg(0, 1, 0, 1, 0, (F(spec['side']) / 4, 0), (spec['side'] / 2, 0)),
+                           XSeg(0, 1, 0, 1, 0, (0, 0), (spec['side'], spec['side']))]
+                    if domain == 'lshape':
+                        bad.append(XSeg(0, 1, 0, 1, 0, (0, 0), (1, 0)))
+                    for seg in bad:
+                        want, _ = xo.linform_str(seg)
+                        add('ip lin %s 6 %s' % (spec['dom'], seg.encode()), want, dict(domain=domain, illegal=seg.encode(), ctx=xo.context_line()))
+    out = run_driver(lines)
+    if len(out) != len(lines):
+        res.broken_obligation('correspondence C08: driver returned %d lines for %d' % (len(out), len(lines)), '')
+        return
+    res.notes['exact_contexts'] = n_ctx
+    for line, want, got, m in zip(lines, expect, out, meta):
+        if m is None:
+            if want != got:
+                res.broken_obligation('correspondence C08: context line rejected', '%s -> %s' % (line[:300], got))
+                return
+            continue
+        if 'vector' in m:
+            ok = got.startswith('ok ') and [float(F(v)) for v in got[3:].split(',')] == m['vector']
+            res.count(('ipvec', line), True)
+            if not ok:
+                res.broken_obligation('correspondence C08: linform_vector of model and src/initial_potential.py differ',
+                                      'line: %s\npython: %r\nmodel: %s' % (line, m['vector'], got[:400]))
+                return
+            continue
+        if 'illegal' in m:
+            res.bump('illegal_' + want.replace(' ', '_')[:40])
+            res.count(('ipbad', line, m['ctx']), True)
+        else:
+            classes = sorted(set(r.split(':')[1] for r in want.split('|')[1].split())) if want.startswith('ok') else ['err']
+            for c in classes:
+                res.bump('cells_seen_' + c)
+            res.bump('time_branch_' + ('a0' if m['time'][0] == 0 else 'general'))
+            res.bump('segments_level_%d' % m['l'])
+            res.count(('ip', line, m['ctx']), len(classes) >= 2)
+        if want != got:
+            res.broken_obligation('correspondence C08: linform of model and src/initial_potential.py differ',
+                                  'case %r\nline: %s\npython: %s\nmodel:  %s' % ({k: v for k, v in m.items() if k != 'ctx'}, line, want[:600], got[:600]) +
+                                  '\ncontext: ' + m.get('ctx', '')[:1200])
+            res.notes['disagreement'] = dict(line=line, context=m.get('ctx'))
+            return
+    res.sample(dict(exact_linform_cases=len([m for m in meta if m and 'l' in m]), classes='I/A/B/F', domains=list(XDOMAINS)))
+
+    # --- B. exact rule + polynomial kernel: the load is the exact integral (instance of linform_eq_integral_poly) ---
+    n_b = 0
+    for domain in ('unit', 'lshape', 'pi'):
+        spec = XDOMAINS[domain]
+        for rep in range(3 if thorough else 1):
+            deg_k = rng.choice([1, 2])
+            ukind = 'bilinear' if deg_k == 1 else rng.choice(['const', 'linear'])
+            u0 = rand_u0(rng, 'bilinear') if ukind == 'bilinear' else U0([(F(2), 0, 0)] + ([(F(-3, 2), 1, 0), (F(1, 3), 0, 1)] if ukind == 'linear' else []))
+            kernel = Kernel('p', [F(rng.randint(-3, 3), 2) for _ in range(deg_k)] + [F(rng.choice([-1, 2, 3]), rng.choice([1, 3]))])
+            pi = F(rng.randint(1, 9), rng.randint(1, 9))
+            xo = ExactIP(domain, NEWTON_COTES[7], kernel, pi, 1 / (4 * pi), u0)    # law FPI_INV = 1/(4 pi)
+            with xo.installed():
+                for _ in range(4 if thorough else 2):
+                    pi_, l = rng.randrange(len(spec['pieces'])), rng.randint(0, 2 if not thorough else 3)
+                    a, b = rng.choice(TIME_CASES)
+                    seg = segment_of(domain, pi_, l, rng.randrange(2**l), a, b)
+                    want, val = xo.linform_str(seg)
+                    if val is None:
+                        res.violation('C08:linform-raises', dict(domain=domain, segment=seg.encode(), error=want))
+                        continue
+                    ref = exact_reference(domain, seg, u0, kernel, a, b, xo.fpi)
+                    n_b += 1
+                    res.count(('ipexact', domain, seg.encode(), xo.context_line()), True)
+                    if val[0].v != ref:
+                        res.broken_obligation('tie C08: linform with an exact rule and a polynomial kernel differs from the exact integral',
+                                              'domain %s segment %s: linform %s, exact %s' % (domain, seg.encode(), q2s(val[0]), q2s(ref)))
+                        res.violation('C08:load-not-the-integral:exact-rule',
+                                      dict(domain=domain, segment=seg.encode(), context=xo.context_line(), linform=q2s(val[0]), exact=q2s(ref)))
+                        return
+    res.notes['exact_integral_instances'] = n_b
+
+
 def correspond(res, tier):
     import src.initial_potential as IP
     from ..formulas_tie import validate
@@ -104,6 +510,10 @@ def correspond(res, tier):
     bad = validate(res, seed_rng(res.seed, 'C08f'), ['ip_tik'], 40)
     for b in bad[:2]:
         res.broken_obligation('translator validation: generated ip_tik and Python time_integrated_kernel differ', repr(b))
+    try:
+        correspond_exact(res, tier)
+    except Exception as exc:  # noqa: BLE001 - the real code cannot be run exactly any more: the tie is broken
+        res.broken_obligation('correspondence C08: exact execution of the real linform failed', '%r\n%s' % (exc, traceback.format_exc()[-3000:]))
     lmax = 3 if tier == 'quick' else 5
     saved = IP.exp1
     try:
